@@ -49,7 +49,7 @@ def run(tier, rep):
     from vf.judges import observables
 
     sd = seed()
-    members, fam_size = family_slice(tier, quick_mod=96)
+    members, fam_size = family_slice(tier, quick_mod=160)
     if tier == "thorough":  # 6 executions per member: every 4th deviation (+ all nominal members), rotated by VERIF_SEED
         members = [x for i, x in enumerate(members) if x[0].endswith("|nominal") or (i + sd) % 4 == 0]
     hs = {"H1": H.H1((1, 6), (1, 1, 3)), "H2.LATEST": H.H2("LATEST", (1, 6), (1, 1, 3)), "H2.BUFFER": H.H2("BUFFER", (1, 6), (1, 1, 3)), "H3": H.H3((1, 6), (1, 1, 3))}
@@ -99,7 +99,7 @@ def run(tier, rep):
             out = explore_many(pool, g2, 1, JUDGE)
             report(rep, "schedules_G2_line_level", out, 1, JUDGE)
     rep.section("family", dyadic_family_size=fam_size, members_run=len(members), variants_per_member=["rr", "rev", "rtf=8", "run() driver", "two episodes from the same initial state"], decimal_family_members=len(dec),
-                harnesses=sorted(hs), quick_slice="nominal members + deviations with index = VERIF_SEED mod 72" if tier == "quick" else "full")
+                harnesses=sorted(hs), quick_slice="nominal members + deviations with index = VERIF_SEED mod 160" if tier == "quick" else "full")
     for n, s in members[:2]:
         rep.sample(dict(member=n, spec=s))
     if tier == "quick":
